@@ -19,7 +19,7 @@ use std::sync::Arc;
 use versatiles_container::{get_reader, write_to_filename, TilesConvertReader, TilesConverterParameters};
 use versatiles_core::{
 	types::*,
-	utils::{compress, decompress},
+	utils::compress,
 };
 use versatiles_geometry::{
 	vector_tile::{VectorTile, VectorTileLayer},
@@ -68,8 +68,19 @@ pub const ONE_BYTE_BASE: u64 = 1 << 40;
 
 /// raw size the single-feature tile of this id is padded to exactly: both sides of the 1000-byte
 /// de-duplication threshold of the versatiles writer
+/// tile whose stored bytes are NOT a fixed point of decode + re-encode: layer `L` (with the id feature)
+/// is followed by layer `K` (one feature without an id) – re-encoding sorts the layers by name
+pub fn two_layer(id: u64) -> bool {
+	id % 43 == 7 && id % 1009 != 0 && id % 37 != 0 && !matches!(id % 41, 1 | 2 | 3) && id % 47 != 11
+}
+/// "decompression bomb"-like but legitimate tile: ~500 KB of one repeated character (brotli
+/// compresses it by far more than 1032:1)
+pub fn repetitive(id: u64) -> bool {
+	id % 47 == 11 && id % 1009 != 0 && id % 37 != 0
+}
+
 pub fn size_target(id: u64) -> Option<usize> {
-	if id % 1009 == 0 || id % 37 == 0 {
+	if id % 1009 == 0 || id % 37 == 0 || repetitive(id) {
 		return None;
 	}
 	match id % 41 {
@@ -105,6 +116,9 @@ pub fn pad_len(id: u64) -> usize {
 		MEMO.with(|m| m.borrow_mut().insert(id, pad));
 		return pad;
 	}
+	if repetitive(id) {
+		return 500_000;
+	}
 	if id % 1009 == 0 {
 		// 1 MiB: only assigned explicitly (thorough tier, a block with more than 64 MiB of tile data)
 		1 << 20
@@ -124,14 +138,42 @@ fn vt_with_pad(ids: &[(u64, usize)], layer: &str) -> Blob {
 		let mut f = GeoFeature::new(Geometry::new_point([1, 2]));
 		f.set_property("id".to_string(), *id);
 		if *n > 0 {
-			let mut r = Rng::new(*id);
-			let pad: String = (0..*n).map(|_| (b'a' + r.below(26) as u8) as char).collect();
+			let pad: String = if repetitive(*id) {
+				"a".repeat(*n)
+			} else {
+				let mut r = Rng::new(*id);
+				(0..*n).map(|_| (b'a' + r.below(26) as u8) as char).collect()
+			};
 			f.set_property("pad".to_string(), pad);
 		}
 		features.push(f);
 	}
 	let l = VectorTileLayer::from_features(layer.to_string(), features, 4096, 1).unwrap();
-	VectorTile::new(vec![l]).to_blob().unwrap()
+	let mut layers = vec![l];
+	if ids.len() == 1 && layer == "L" && two_layer(ids[0].0) {
+		let mut f = GeoFeature::new(Geometry::new_point([3, 4]));
+		f.set_property("aux".to_string(), ids[0].0);
+		layers.push(VectorTileLayer::from_features("K".to_string(), vec![f], 4096, 1).unwrap());
+	}
+	VectorTile::new(layers).to_blob().unwrap()
+}
+
+/// decompression that does not go through the code under test
+pub fn indep_decompress(b: &[u8], comp: TileCompression) -> Option<Vec<u8>> {
+	use std::io::Read;
+	match comp {
+		TileCompression::Uncompressed => Some(b.to_vec()),
+		TileCompression::Gzip => {
+			let mut out = vec![];
+			flate2::read::GzDecoder::new(b).read_to_end(&mut out).ok()?;
+			Some(out)
+		}
+		TileCompression::Brotli => {
+			let mut out = vec![];
+			brotli::Decompressor::new(b, 4096).read_to_end(&mut out).ok()?;
+			Some(out)
+		}
+	}
 }
 
 /// raw (uncompressed) vector tile: layer `L`, one point feature per id with property `id`
@@ -170,7 +212,7 @@ impl Ident {
 }
 fn ident_raw(blob: &Blob, comp: TileCompression) -> Option<String> {
 	let r = catch(|| -> Option<String> {
-		let raw = decompress(blob.clone(), &comp).ok()?;
+		let raw = Blob::from(indep_decompress(blob.as_slice(), comp)?);
 		if raw.len() == 1 {
 			return Some((ONE_BYTE_BASE + raw.as_slice()[0] as u64).to_string());
 		}
@@ -181,7 +223,10 @@ fn ident_raw(blob: &Blob, comp: TileCompression) -> Option<String> {
 		for l in layers {
 			for f in l.features.iter() {
 				let g = f.to_feature(l).ok()?;
-				ids.push(g.properties.get("id")?.to_string());
+				// features without an id (the auxiliary layer of two-layer tiles) do not identify anything
+				if let Some(v) = g.properties.get("id") {
+					ids.push(v.to_string());
+				}
 			}
 		}
 		Some(ids.join("+"))
@@ -896,10 +941,18 @@ pub fn levels_of(specs: &[SrcSpec]) -> BTreeMap<u8, Vec<(u32, u32)>> {
 
 fn next_id(next: &mut u64) -> u64 {
 	*next += 1;
-	if *next % 1009 == 0 {
+	while *next % 1009 == 0 || repetitive(*next) {
 		*next += 1;
 	}
 	*next
+}
+pub fn next_id_where(next: &mut u64, pred: fn(u64) -> bool) -> u64 {
+	loop {
+		*next += 1;
+		if pred(*next) {
+			return *next;
+		}
+	}
 }
 fn next_id_with_target(next: &mut u64) -> u64 {
 	loop {
@@ -963,7 +1016,13 @@ pub fn assign_ids_style(rng: &mut Rng, coords: &[Key], next: &mut u64, style: u6
 		_ => {
 			let mut used: Vec<u64> = vec![];
 			for k in coords {
-				let idv = if !used.is_empty() && rng.chance(1, 7) { *rng.pick(&used) } else { next_id(next) };
+				let idv = if !used.is_empty() && rng.chance(1, 7) {
+					*rng.pick(&used)
+				} else if rng.chance(1, 5) {
+					next_id_where(next, two_layer)
+				} else {
+					next_id(next)
+				};
 				used.push(idv);
 				tiles.insert(*k, idv);
 			}
